@@ -279,7 +279,7 @@ def main():
         chk.extra["boosted_ops"] = sorted(reach)[:60]
     n_cases, maxops = (40000, 16) if chk.tier == "thorough" else (1500, 14)
     differential(chk, n_cases, boost, maxops)
-    if chk.tier == "quick" and chk.broken() and not chk.extra.get("_buckets"):
+    if chk.tier == "quick" and (chk.broken() or chk.anchor_changed) and not chk.extra.get("_buckets"):
         chk.notes.append("escalated the history search after a broken proof/correspondence")
         differential(chk, 6000, boost, 16)
     report_failures(chk)
